@@ -118,6 +118,10 @@ pub fn run_lo(dir: &str, k: usize, samples: &[Vec<Vec<u8>>], reference: Option<&
     lo_on_file(dir, reference, extra, threads, hash_seed)
 }
 
+/// Orientation of the reference given to `lo -r` by C17: 0 = chosen from the case, 1 = the ancestor, 2 = its reverse
+/// complement (recorded in the case so that a replay uses the same one)
+pub static REF_ORIENT: std::sync::atomic::AtomicUsize = std::sync::atomic::AtomicUsize::new(0);
+
 /// How the reference FASTA of `lo -r` is laid out (set by C17 per case; 0 = one line, LF).
 pub static REF_DRESS: std::sync::atomic::AtomicUsize = std::sync::atomic::AtomicUsize::new(0);
 
